@@ -22,6 +22,8 @@ import (
 	"github.com/ARM-software/golang-utils/utils/filesystem"
 	"github.com/ARM-software/golang-utils/utils/hashing"
 
+	"sync"
+	"time"
 	"verifharness/internal/hk"
 )
 
@@ -66,6 +68,7 @@ type scriptReader struct {
 	cancel  context.CancelFunc
 	started int
 	joinEOF bool // the last chunk is delivered together with io.EOF
+	late    bool // the cancellation happens while the reader is inside Read: the chunk is handed over 8 ms later
 }
 
 func (r *scriptReader) Read(p []byte) (int, error) {
@@ -75,6 +78,10 @@ func (r *scriptReader) Read(p []byte) (int, error) {
 	}
 	if r.i >= len(r.chunks) {
 		return 0, io.EOF
+	}
+	if r.late && r.how == "cancel" && r.i == r.k && r.off == 0 {
+		r.cancel()
+		time.Sleep(8 * time.Millisecond)
 	}
 	c := r.chunks[r.i]
 	n := copy(p, c[r.off:])
@@ -98,6 +105,7 @@ type Calc struct {
 	K       int      `json:"k"`
 	Same    bool     `json:"same"`
 	EOF     string   `json:"eof"`
+	Late    bool     `json:"late"`
 }
 
 type Behaviour struct {
@@ -169,8 +177,8 @@ func runHistory(id int, b *Behaviour, algo, scale, via string, dir string) hk.Re
 		chunks, all := materialise(c, scale)
 		ctx, cancel := context.WithCancel(context.Background())
 		how := c.Outcome
-		sr := &scriptReader{chunks: chunks, how: how, k: c.K, cancel: cancel, joinEOF: c.EOF == "joined"}
-		if how == "cancel" && c.K == 0 {
+		sr := &scriptReader{chunks: chunks, how: how, k: c.K, cancel: cancel, joinEOF: c.EOF == "joined", late: c.Late}
+		if how == "cancel" && c.K == 0 && !c.Late {
 			cancel()
 		}
 		var digest string
@@ -201,6 +209,10 @@ func runHistory(id int, b *Behaviour, algo, scale, via string, dir string) hk.Re
 			}
 		}
 		cancel()
+		if c.Late {
+			// whatever is still in flight gets the time to land before the next calculation starts
+			time.Sleep(25 * time.Millisecond)
+		}
 		if cerr != nil {
 			if how == "ok" {
 				res.Status, res.Sig, res.Scenario = "violation", "ok-calculation-failed", b
@@ -239,24 +251,41 @@ func replay(a *hk.Args) error {
 	osdir := filepath.Join(a.Dir, "c20-os")
 	_ = os.MkdirAll(osdir, 0o755)
 	defer os.RemoveAll(osdir)
-	rng := rand.New(rand.NewSource(a.Seed))
 	scaleNames := []string{"tiny", "zero", "block", "big"}
+	// histories are independent of one another (one hasher object each): a pool of workers runs them
+	var wg sync.WaitGroup
+	sem := make(chan struct{}, 12)
 	for i := range bs {
-		for _, algo := range algos {
-			// every behaviour on every algorithm with the tiny scale; one further random scale; files on a sample
-			w.Write(runHistory(i, &bs[i], algo, "tiny", "reader", osdir))
-			sc := scaleNames[1+rng.Intn(3)]
-			if a.Tier == "thorough" || rng.Intn(4) == 0 {
-				w.Write(runHistory(i, &bs[i], algo, sc, "reader", osdir))
+		wg.Add(1)
+		sem <- struct{}{}
+		go func(i int) {
+			defer wg.Done()
+			defer func() { <-sem }()
+			rng := rand.New(rand.NewSource(a.Seed + int64(i)))
+			hasLate := false
+			for _, c := range bs[i].Calcs {
+				hasLate = hasLate || c.Late
 			}
-			if rng.Intn(12) == 0 {
-				w.Write(runHistory(i, &bs[i], algo, sc, "file-mem", osdir))
+			for k, algo := range algos {
+				if hasLate && k != i%len(algos) && k != (i+3)%len(algos) {
+					continue // histories with late deliveries take real time: two algorithms each, in rotation
+				}
+				// every behaviour on every algorithm with the tiny scale; one further random scale; files on a sample
+				w.Write(runHistory(i, &bs[i], algo, "tiny", "reader", osdir))
+				sc := scaleNames[1+rng.Intn(3)]
+				if a.Tier == "thorough" || rng.Intn(4) == 0 {
+					w.Write(runHistory(i, &bs[i], algo, sc, "reader", osdir))
+				}
+				if rng.Intn(12) == 0 {
+					w.Write(runHistory(i, &bs[i], algo, sc, "file-mem", osdir))
+				}
+				if rng.Intn(24) == 0 {
+					w.Write(runHistory(i, &bs[i], algo, "zero", "file-os", osdir))
+				}
 			}
-			if rng.Intn(24) == 0 {
-				w.Write(runHistory(i, &bs[i], algo, "zero", "file-os", osdir))
-			}
-		}
+		}(i)
 	}
+	wg.Wait()
 	return nil
 }
 
